@@ -1,3 +1,174 @@
-/-! C02 property theorems — stub (not built yet). -/
+import TTModel.C02_Names
+import TTModel.C01_Patterns
+import TTProofs.Lemmas.C02_Names
+import TTProofs.Lemmas.C02_Swap
+import TTProofs.Lemmas.C02_Reroot
+import TTProofs.Lemmas.C01_Patterns
+import TTProofs.Props.C01
+/-!
+# C02 — the likelihood is invariant to how the same tree and data are written down
+
+Everything is stated about the C01 model (`likIdx` *is* `TT.C01.siteLik` on the post-order of
+`setupIndexes`, with matrices addressed by node index and tip vectors by taxon position — the
+computation of the implementation) and about `TT.C01.compress`/`sortSeqs`.
+-/
 namespace TTProps.C02
+open TT TT.C01 TT.C02
+
+section names
+variable {β : Type} {R : Type} [CommSemiring R] {K S : Nat}
+
+/-- **The value is a function of the name-indexed tree and data.**  The implementation's
+    computation — leaf index = position of the name in `taxa`, internal indices in post-order,
+    `mats[b] = P(blens[b])` with `blens` addressed by node index, tip `i` = data of `taxa[i]`, the
+    index-addressed pruning loop — is defined and equals the structural recursion `likN`, which
+    mentions neither an order nor an index.  (Leaf names pairwise distinct and listed in `taxa`.) -/
+theorem lik_by_name (π : Fin S → R) (props : Fin K → R) (P : β → Fin K → Fin S → Fin S → R) (d : β)
+    (taxa : List String) (l r : LTree β) (b : β) (data : String → Fin S → R)
+    (hsub : ∀ nm ∈ (LTree.node l r b).names, nm ∈ taxa) (hnd : (LTree.node l r b).names.Nodup) :
+    likIdx π props P d taxa (.node l r b) data = some (likN π props P data (.node l r b)) :=
+  likIdx_eq_likN π props P d taxa l r b data hsub hnd
+
+/-- reordering (or extending) the `Taxa` list leaves the value unchanged -/
+theorem lik_perm_taxa (π : Fin S → R) (props : Fin K → R) (P : β → Fin K → Fin S → Fin S → R) (d : β)
+    (taxa taxa' : List String) (l r : LTree β) (b : β) (data : String → Fin S → R)
+    (hsub : ∀ nm ∈ (LTree.node l r b).names, nm ∈ taxa) (hperm : taxa.Perm taxa')
+    (hnd : (LTree.node l r b).names.Nodup) :
+    likIdx π props P d taxa (.node l r b) data = likIdx π props P d taxa' (.node l r b) data := by
+  rw [lik_by_name π props P d taxa l r b data hsub hnd,
+    lik_by_name π props P d taxa' l r b data (fun nm h => hperm.subset (hsub nm h)) hnd]
+
+example : ["A", "B", "C"].Perm ["C", "A", "B"] := by decide
+
+/-- swapping the children of any set of nodes leaves the value unchanged -/
+theorem lik_swap_children (π : Fin S → R) (props : Fin K → R) (P : β → Fin K → Fin S → Fin S → R) (d : β)
+    (taxa : List String) (T T' : LTree β) (data : String → Fin S → R) (hsw : SwapEq T T')
+    (hnode : T.isNode) (hsub : ∀ nm ∈ T.names, nm ∈ taxa) (hnd : T.names.Nodup) :
+    likIdx π props P d taxa T data = likIdx π props P d taxa T' data := by
+  obtain ⟨l, r, b, rfl⟩ := (isNode_iff T).mp hnode
+  obtain ⟨l', r', b', rfl⟩ := (isNode_iff T').mp (hsw.isNode.mp hnode)
+  have hp := hsw.names_perm
+  rw [lik_by_name π props P d taxa l r b data hsub hnd,
+    lik_by_name π props P d taxa l' r' b' data (fun nm h => hsub nm (hp.symm.subset h))
+      (hp.nodup_iff.mp hnd)]
+  unfold likN
+  rw [hsw.partialN P data]
+
+example : SwapEq (LTree.node (.node (.leaf "A" 1) (.leaf "B" 2) 3) (.leaf "C" 4) 0)
+    (LTree.node (.leaf "C" 4) (.node (.leaf "B" 2) (.leaf "A" 1) 3) 0) :=
+  .trans (.swap _ _ _) (.congr _ (.refl _) (.swap _ _ _))
+
+end names
+
+/-! ## sequences, columns -/
+
+/-- reordering the sequence list leaves the sorted alignment — hence the patterns, weights and every tip
+    vector — literally unchanged (sequence names pairwise distinct and listed in `taxa`) -/
+theorem lik_perm_sequences (size : Nat) (taxa : List String) (seqs seqs' : List (String × List Char))
+    (hp : seqs.Perm seqs') (hnd : (seqs.map (·.1)).Nodup) (hsub : ∀ s ∈ seqs, s.1 ∈ taxa) :
+    sortSeqs taxa seqs = sortSeqs taxa seqs' ∧ patterns size taxa seqs = patterns size taxa seqs' ∧
+    ∀ nm p, symbolOf taxa seqs nm p = symbolOf taxa seqs' nm p := by
+  have h := sortSeqs_perm taxa seqs seqs' hp hnd hsub
+  refine ⟨h, ?_, ?_⟩
+  · unfold patterns; rw [h]
+  · intro nm p; unfold symbolOf; rw [h]
+
+example : ([("B", ['A']), ("A", ['C'])] : List (String × List Char)).Perm [("A", ['C']), ("B", ['A'])] := by
+  decide
+
+/-- reordering the alignment columns leaves every pattern-weighted sum (in particular the reported
+    `Σ_p w_p log L_p`) unchanged -/
+theorem lik_perm_columns {C : Type} [DecidableEq C] [LT C] [DecidableLT C] {M : Type} [AddCommMonoid M]
+    (f : C → M) (cols cols' : List C) (hp : cols.Perm cols') :
+    ((compress cols).map fun pw => pw.2 • f pw.1).sum = ((compress cols').map fun pw => pw.2 • f pw.1).sum := by
+  rw [TTProps.C01.compress_sum, TTProps.C01.compress_sum]
+  exact (hp.map f).sum_eq
+
+/-- merging identical columns into weighted patterns: a column repeated `m c` times contributes
+    `m c • f c`; in particular duplicating the whole alignment doubles the value -/
+theorem lik_merge_columns {C : Type} [DecidableEq C] [LT C] [DecidableLT C] {M : Type} [AddCommMonoid M]
+    (f : C → M) (cols : List C) (m : C → Nat) :
+    ((compress (cols.flatMap fun c => List.replicate (m c) c)).map fun pw => pw.2 • f pw.1).sum
+      = (cols.map fun c => m c • f c).sum := by
+  rw [TTProps.C01.compress_sum]
+  induction cols with
+  | nil => simp
+  | cons c cs ih =>
+    simp only [List.flatMap_cons, List.map_append, List.sum_append, List.map_cons, List.sum_cons, ih]
+    simp [List.sum_replicate]
+
+theorem lik_double_columns {C : Type} [DecidableEq C] [LT C] [DecidableLT C] {M : Type} [AddCommMonoid M]
+    (f : C → M) (cols : List C) :
+    ((compress (cols ++ cols)).map fun pw => pw.2 • f pw.1).sum
+      = 2 • ((compress cols).map fun pw => pw.2 • f pw.1).sum := by
+  rw [TTProps.C01.compress_sum, TTProps.C01.compress_sum, List.map_append, List.sum_append, two_nsmul]
+
+/-! ## tip states vs tip partials -/
+
+/-- With unknown / ambiguous symbols treated as missing (`use_ambiguities = False`), the tip-state
+    representation (`compress_alignment_states` + `calculate_treelikelihood_tip_states_discrete`) and the
+    tip-partial representation give the same value for nucleotide data, provided the rows of every
+    transition matrix sum to one.  `code i` is the character (code point `< 128`) of taxon `i`. -/
+theorem tipStates_vs_partials {R : Type} [CommSemiring R] {K : Nat}
+    (π : Fin 4 → R) (props : Fin K → R) (mats : Mats R K 4) (code : Nat → Nat) (hcode : ∀ i, code i < 128)
+    (n : Nat) (l r : BTree) (hleaves : ∀ i ∈ (BTree.node l r).leaves, i < n)
+    (hn : (BTree.node l r).leaves.length = n) (hrow : ∀ b k s, ∑ j, mats b k s j = 1) :
+    siteLikTS π props mats (postorder (setupIndexes n (.node l r)))
+        (fun i => (nucTipStateCode (code i)).getD 0)
+      = siteLik π props mats (postorder (setupIndexes n (.node l r))) n
+        (fun i j => (((nucPartialCode false (code i)).getD []).getD j.val 0 : Nat)) := by
+  rw [TTProps.C01.tipStates_eq_tipPartials π props mats _ n l r hleaves hn hrow]
+  congr 1
+  funext i j
+  rw [TTProps.C01.tipstate_table (code i) (hcode i), TTProps.C01.noamb_table (code i) (hcode i)]
+  simp only [Option.getD_some, stateVec]
+  have : (List.ofFn (stateVec (α := Nat) (S := 4) (TTProps.C01.plainState (code i)))).getD j.val 0
+      = stateVec (α := Nat) (S := 4) (TTProps.C01.plainState (code i)) j := by
+    rw [List.getD_eq_getElem?_getD, List.getElem?_ofFn]
+    simp
+  rw [this]
+  simp only [stateVec]
+  split <;> [split <;> simp; simp]
+
+/-! ## moving the root: the pulley principle -/
+
+section reroot
+variable {L : Type} [AddCommMonoid L] {R : Type} [CommSemiring R] {K S : Nat}
+  {π : Fin S → R} {P : L → Fin K → Fin S → Fin S → R}
+
+/-- only the SUM of the two root branch lengths matters (this is why `UnRootedTreeModel` may store
+    `a+b` on one root child and `0` on the other, whichever child that is) -/
+theorem reroot_edge (h : Pulley π P) (props : Fin K → R) (data : String → Fin S → R)
+    (l r : LTree L) (b0 a' b' : L) (hsum : a' + b' = l.branch + r.branch) :
+    likN π props P data (slideRoot a' b' (.node l r b0)) = likN π props P data (.node l r b0) :=
+  likN_slideRoot h props data l r b0 a' b' hsum
+
+/-- moving the root across one internal node (summing the two root branch lengths) -/
+theorem reroot_step (h : Pulley π P) (props : Fin K → R) (data : String → Fin S → R) (T : LTree L) :
+    likN π props P data (stepLeft T) = likN π props P data T ∧
+    likN π props P data (stepRight T) = likN π props P data T :=
+  ⟨likN_stepLeft h props data T, likN_stepRight h props data T⟩
+
+/-- any sequence of root moves, and every one of the rootings enumerated by `allRootings`
+    (the given one, every branch inside the left child, every branch inside the right child) -/
+theorem reroot_any (h : Pulley π P) (props : Fin K → R) (data : String → Fin S → R) (T : LTree L) :
+    (∀ ms : List Move, likN π props P data (reroot ms T) = likN π props P data T) ∧
+    (∀ T' ∈ allRootings T, likN π props P data T' = likN π props P data T) :=
+  ⟨fun ms => likN_reroot h props data ms T, fun T' hm => likN_allRootings h props data T T' hm⟩
+
+/-- the hypotheses are satisfiable non-trivially: the two-state symmetric chain on `ℚ`-valued lengths
+    `P(t) = ½(1+2^{-t}) / ½(1−2^{-t})` is too transcendental for a one-line example; the degenerate
+    but non-vacuous instance `P ≡ I` (any `π`) satisfies all three clauses -/
+example : Pulley (L := Nat) (K := 1) (S := 2) (fun _ => (1 : ℚ)) (fun _ _ s j => if s = j then 1 else 0) where
+  rev := by intro a k s j; by_cases h : s = j <;> simp [h, eq_comm]
+  zero := by intro k s j; rfl
+  semigroup := by
+    intro a b k s j
+    simp
+
+example : (allRootings (LTree.node (.node (.leaf "A" (1 : Nat)) (.leaf "B" 2) 3)
+    (.node (.leaf "C" 4) (.leaf "D" 5) 6) 0)).length = 5 := by decide
+
+end reroot
+
 end TTProps.C02
